@@ -168,7 +168,7 @@ def check(prog, res, tier):
     blocked_ob = Ob('C17.a', f'blocked decision table: True for the shapes of a blocked writer file (1014, 2028, {S}+ bytes sampled), '
                              f'False below one block and when bytes 1012-1013 are not 0x40 0x40', func_where(bfi),
                     'block_1014_check decision table')
-    bad = []
+    bad, amb = [], []
     blockers = [p for p in runs_b.inv if p.outcome != 'return' or p.tainted or p.unknowns]
     n_eval = 0
     table = []
@@ -176,35 +176,50 @@ def check(prog, res, tier):
         outs = cell_outcomes(runs_b, src_b, L, preds)
         n_eval += len(outs)
         vals = set()
+        unclear = set()
         for p, v in outs:
             v = p.interp.resolve(v)
-            vals.add(v.value if isinstance(v, ConstV) else repr(v))
+            val = v.value if isinstance(v, ConstV) else repr(v)
+            src_ = src_b(p)
+            # a path that took a decision on something other than bytes of the sample (the truth of a generic element of a
+            # generalised loop ...) does not give "the" answer of the cell
+            foreign = [k for k, _t, d in p.facts if not (k == 'seq-eq' and any(
+                isinstance(x, SeqV) and len(x.segs) == 1 and isinstance(x.segs[0], Sl) and x.segs[0].src is src_ for x in (d.get('a'), d.get('b'))))]
+            (unclear if foreign else vals).add(val)
         table.append({'len': L, 'preds': {f'{k[0]}:{k[1]}': t for k, t in preds.items()}, 'result': sorted(map(str, vals))})
         if not outs:
             bad.append((L, preds, want, why, 'no path covers this cell'))
-        elif vals != {want}:
-            bad.append((L, preds, want, why, f'returns {sorted(map(str, vals))}'))
+        elif vals - {want}:
+            bad.append((L, preds, want, why, f'returns {sorted(map(str, vals | unclear))}'))
+        elif unclear - {want} or not vals:
+            amb.append((L, preds, want, why, f'returns {sorted(map(str, vals | unclear))}'))
     res.count(evaluations=n_eval)
     blocked_ob.abstract = table[:8]
-    if blockers:
-        # the function has loops: evaluate it exactly, cell by cell, on samples of concrete length whose trailer positions
+    if blockers or (amb and not bad):
+        # the function has loops (or answers that hang on generic elements): evaluate it exactly, cell by cell, on samples of concrete length whose trailer positions
         # hold 0x40 0x40 (or a two-byte value known to differ) and whose other bytes are symbolic
         bad, und, n_exact = exact_cells(prog, res, bfi, cells)
         res.count(evaluations=n_exact)
         if und:
             blocked_ob.verdict = UNDECIDED
-            blocked_ob.detail = f'decision function not fully interpreted ({blockers[0].outcome} {blockers[0].value!r}); ' \
+            why0 = f'({blockers[0].outcome} {blockers[0].value!r})' if blockers else '(answers hang on generic elements)'
+            blocked_ob.detail = f'decision function not fully interpreted {why0}; ' \
                                 f'exact evaluation of cell len={und[0][0]} is blocked: {und[0][1]}'
             res.add(blocked_ob)
             bad = None
     if bad is None:
         pass
-    elif blockers and not bad:
+    elif (blockers or amb) and not bad:
+        amb = []
         blocked_ob.verdict, blocked_ob.detail = PROVED, f'{len(cells)} cells evaluated exactly on samples of concrete length (loops fully unrolled)'
         res.add(blocked_ob)
         bad = None
     if bad is None:
         pass
+    elif not bad and amb and not blockers:
+        L, preds, want, why, got = amb[0]
+        blocked_ob.verdict = UNDECIDED
+        blocked_ob.detail = f'cell len(sample)={L} ({why}): {got} - both answers for one cell, the analysis does not fix the choice'
     elif bad:
         L, preds, want, why, got = bad[0]
         blocked_ob.verdict = REFUTED
